@@ -62,7 +62,7 @@ WorstLen(x, m) ==
     [] x.r = "alt" -> DMax2(WorstLen(x.alts[1], m), WorstLen(x.alts[2], m))
 
 Anchored(x) == x.r = "seq" /\ Len(x.parts) >= 1 /\ x.parts[1].r = "at"
-Lazies == IF Rich THEN BOOLEAN ELSE {FALSE}
+Lazies == BOOLEAN
 TapeChoices == IF Rich THEN Tapes2 ELSE ConstTapes \cup {<<"lo", "hi">>, <<"hi", "lo">>, <<"lo1", "hi">>, <<"hi", "hi1">>}
 
 Flat(x) == IF x.r = "seq" THEN x.parts ELSE <<x>>
@@ -70,7 +70,7 @@ Flat(x) == IF x.r = "seq" THEN x.parts ELSE <<x>>
 Next ==
   \/ \E a \in Atoms : Push(a)
   \/ Len(stack) >= 1 /\ ~Anchored(Top) /\ \E k \in GroupKinds : Wrap(RGroup(k, Top))
-  \/ Len(stack) >= 1 /\ ~Anchored(Top) /\ \E b \in Bounds, lazy \in Lazies : Wrap(RRep(Top, b[1], b[2], lazy))
+  \/ Len(stack) >= 1 /\ ~Anchored(Top) /\ \E b \in Bounds, lazy \in Lazies : (Rich \/ ~lazy \/ b[2] = INF) /\ Wrap(RRep(Top, b[1], b[2], lazy))
   \/ Len(stack) >= 1 /\ ~Anchored(Top) /\ \E k \in UnsKinds : Wrap(RUns(k, Top))
   \* anchors only at the ends of the whole pattern: an anchored pattern is finished
   \/ Len(stack) = 1 /\ ~Anchored(Top) /\ Wrap(RSeq(<<RStart>> \o Flat(Top) \o <<REnd>>))
